@@ -1,8 +1,10 @@
 // Native driver for the C09 check (engine/gen9.py).  Copied into the scratch copy of the crate as
 // examples/verif_c09.rs and built against the CURRENT tree; public API only.
 //
-//   verif_c09 dump <max_size>
-//       for every 2D D-set of DSets::new(2, max_size) and every symbol of DSyms::new(&set, All):
+//   verif_c09 dump <max_size> <renumber_upto>
+//       for every 2D D-set of DSets::new(2, max_size) and every symbol of DSyms::new(&set, All) — and, for symbols
+//       with at most <renumber_upto> chambers, every renumbering of the chambers (the construction follows the
+//       numbering: spanning tree, order of gluing) —:
 //         "B <size> <op table> <m(0,1,d)> <m(1,2,d)>"       the symbol
 //         "P <nr_generators>"
 //         "R <w1> ; <w2> ; ..."                              relators of fundamental_group(symbol)
@@ -10,35 +12,67 @@
 //         "E <d> <i> <letters...>"                           edge_to_word (one line per entry)
 //         "K <degree> <letters...>"                          cones
 //       "END <number of symbols>"
+use rust_dsymbols::derived::{build_set, build_sym_using_ms};
 use rust_dsymbols::dsets::*;
+use rust_dsymbols::dsyms::*;
 use rust_dsymbols::fundamental_group::fundamental_group;
 use rust_dsymbols::generators::dset_generators::DSets;
 use rust_dsymbols::generators::dsym_generators::{DSyms, Geometries};
 
+fn permutations(n: usize) -> Vec<Vec<usize>> {
+    // permutations of 1..=n as vectors p with p[d] = new number of chamber d (index 0 unused)
+    fn rec(n: usize, cur: &mut Vec<usize>, used: &mut Vec<bool>, out: &mut Vec<Vec<usize>>) {
+        if cur.len() == n + 1 { out.push(cur.clone()); return; }
+        for x in 1..=n {
+            if !used[x] { used[x] = true; cur.push(x); rec(n, cur, used, out); cur.pop(); used[x] = false; }
+        }
+    }
+    let mut out = vec![];
+    rec(n, &mut vec![0], &mut vec![false; n + 1], &mut out);
+    out
+}
+
+fn emit<T: DSym>(sym: &T) {
+    let mut out = vec!["B".to_string(), sym.size().to_string()];
+    for i in 0..=2 { for d in 1..=sym.size() { out.push(sym.op(i, d).unwrap_or(0).to_string()); } }
+    for i in 0..2 { for d in 1..=sym.size() { out.push(sym.m(i, i + 1, d).unwrap_or(0).to_string()); } }
+    println!("{}", out.join(" "));
+    let g = fundamental_group(sym);
+    println!("P {}", g.nr_generators());
+    let ws: Vec<String> = g.relators.iter()
+        .map(|w| w.iter().map(|x| x.to_string()).collect::<Vec<_>>().join(" ")).collect();
+    println!("R {}", ws.join(" ; "));
+    for (gen, (d, i)) in g.gen_to_edge.iter() { println!("G {} {} {}", gen, d, i); }
+    for ((d, i), w) in g.edge_to_word.iter() {
+        let l: Vec<String> = w.iter().map(|x| x.to_string()).collect();
+        println!("E {} {} {}", d, i, l.join(" "));
+    }
+    for (w, deg) in g.cones.iter() {
+        let l: Vec<String> = w.iter().map(|x| x.to_string()).collect();
+        println!("K {} {}", deg, l.join(" "));
+    }
+}
+
 fn main() {
     let args: Vec<String> = std::env::args().collect();
     let n: usize = args[2].parse().expect("number");
+    let upto: usize = if args.len() > 3 { args[3].parse().expect("number") } else { 0 };
     let mut count = 0;
     for set in DSets::new(2, n) {
         for sym in DSyms::new(&set, Geometries::All) {
             count += 1;
-            let mut out = vec!["B".to_string(), sym.size().to_string()];
-            for i in 0..=2 { for d in 1..=sym.size() { out.push(sym.op(i, d).unwrap_or(0).to_string()); } }
-            for i in 0..2 { for d in 1..=sym.size() { out.push(sym.m(i, i + 1, d).unwrap_or(0).to_string()); } }
-            println!("{}", out.join(" "));
-            let g = fundamental_group(&sym);
-            println!("P {}", g.nr_generators());
-            let ws: Vec<String> = g.relators.iter()
-                .map(|w| w.iter().map(|x| x.to_string()).collect::<Vec<_>>().join(" ")).collect();
-            println!("R {}", ws.join(" ; "));
-            for (gen, (d, i)) in g.gen_to_edge.iter() { println!("G {} {} {}", gen, d, i); }
-            for ((d, i), w) in g.edge_to_word.iter() {
-                let l: Vec<String> = w.iter().map(|x| x.to_string()).collect();
-                println!("E {} {} {}", d, i, l.join(" "));
-            }
-            for (w, deg) in g.cones.iter() {
-                let l: Vec<String> = w.iter().map(|x| x.to_string()).collect();
-                println!("K {} {}", deg, l.join(" "));
+            emit(&sym);
+            let size = sym.size();
+            if size <= upto && size > 1 {
+                for p in permutations(size).into_iter().skip(1) {
+                    // chamber d becomes p[d]
+                    let mut inv = vec![0; size + 1];
+                    for d in 1..=size { inv[p[d]] = d; }
+                    let dset = build_set(size, 2, |i, e| sym.op(i, inv[e]).map(|x| p[x]));
+                    let renum = build_sym_using_ms(dset, |i, e| sym.m(i, i + 1, inv[e]));
+                    count += 1;
+                    emit(&renum);
+                }
             }
         }
     }
